@@ -8,6 +8,7 @@ import (
 	"net/netip"
 	"sort"
 	"strconv"
+	"strings"
 	"testing"
 	"testing/synctest"
 	"time"
@@ -227,7 +228,11 @@ func TestMuxRoute(t *testing.T) {
 				if kd == "data" {
 					b = []byte(fmt.Sprintf("application data %04d", ngrams))
 				} else {
-					m, err := stun.Build(stun.BindingRequest, stun.TransactionID, stun.NewUsername(kd+":peer"))
+					un := kd + ":peer"
+					if base, more := strings.CutSuffix(kd, "+"); more { // a USERNAME with more than one colon names the same ufrag
+						un = base + ":mid:peer"
+					}
+					m, err := stun.Build(stun.BindingRequest, stun.TransactionID, stun.NewUsername(un))
 					if err != nil {
 						t.Fatal(err)
 					}
